@@ -1212,7 +1212,19 @@ impl DhtNetworkManager {
         );
 
         let mut seen_peer_ids: HashSet<String> = HashSet::new();
+        let mut seen_dht_keys: HashSet<Key> = HashSet::new();
         let mut all_nodes: Vec<DHTNode> = Vec::new();
+
+        // A peer is named under one identifier only: the transport-level id it is
+        // connected (or was last seen) under, which is also the id requests can be
+        // routed to. Routing-table entries only carry the DHT key, so map them back.
+        let known_ids: HashMap<Key, PeerId> = {
+            let peers = self.dht_peers.read().await;
+            peers
+                .iter()
+                .map(|(peer_id, info)| (info.dht_key, peer_id.clone()))
+                .collect()
+        };
 
         // 1. Check local routing table
         {
@@ -1220,17 +1232,22 @@ impl DhtNetworkManager {
             match dht_guard.find_nodes(&DhtKey::from_bytes(*key), count).await {
                 Ok(nodes) => {
                     for node in nodes {
-                        let id = node.id.to_string();
-                        if self.is_local_peer_id(&id) {
+                        let node_key = *node.id.as_bytes();
+                        let id = known_ids
+                            .get(&node_key)
+                            .cloned()
+                            .unwrap_or_else(|| node.id.to_string());
+                        if self.is_local_peer_id(&id) || node_key == *self.local_dht_key.as_bytes()
+                        {
                             continue;
                         }
-                        if seen_peer_ids.insert(id.clone()) {
+                        if seen_dht_keys.insert(node_key) && seen_peer_ids.insert(id.clone()) {
                             all_nodes.push(DHTNode {
                                 peer_id: id,
                                 address: node.address,
                                 distance: None,
                                 reliability: node.capacity.reliability_score,
-                                cached_dht_key: Some(DhtKey::from_bytes(*node.id.as_bytes())),
+                                cached_dht_key: Some(DhtKey::from_bytes(node_key)),
                             });
                         }
                     }
@@ -1249,6 +1266,9 @@ impl DhtNetworkManager {
                     continue;
                 }
                 if self.is_local_peer_id(peer_id) {
+                    continue;
+                }
+                if !seen_dht_keys.insert(peer_info.dht_key) {
                     continue;
                 }
                 if !seen_peer_ids.insert(peer_id.clone()) {
